@@ -1,12 +1,12 @@
 package c20
 
 import (
-	"strings"
 	"bytes"
 	"fmt"
 	"os"
 	"path/filepath"
 	"sort"
+	"strings"
 
 	"verif/harness/core"
 )
